@@ -59,7 +59,8 @@ REQUIRED_TAGS = ['kind=interp_curve', 'kind=lsq_curve', 'kind=cubic', 'kind=bezi
                  'bd=FREE', 'bd=NATURAL', 'bd=HERMITE', 'bd=PERIODIC', 'bd=TANGENT', 'bd=TANGENTNATURAL',
                  'params=default', 'params=user', 'layout=tensor', 'layout=flat', 'pardim=2', 'pardim=3', 'nonsquare',
                  'projection', 'dim=1', 'dim=2', 'dim=3', 'periodic-basis', 'loft=incompatible', 'loft=compatible',
-                 'loft-sections=2', 'loft-sections=3', 'loft-sections>=4', 'loft=surfaces', 'lsq-overdetermined',
+                 'loft-sections=2', 'loft-sections=3', 'loft-sections>=4', 'loft=surfaces', 'loft:sections-periodic-v',
+                 'loft:sections-periodic-u', 'loft:mixed-periodicity', 'loft:periodic-vs-open', 'lsq-overdetermined',
                  'fit=atol-binding', 'fit=rtol-binding', 'fit-hard=start', 'fit-hard=middle', 'error-peak=first',
                  'error-peak=middle', 'error-peak=last', 'error-spans>=3']
 KNOWN_LABELS = ['manipulate-getargspec', 'manipulate-derivative-averaging', 'lsq-flat-layout-reshape',
@@ -356,6 +357,37 @@ def _section(rng, pardim, variant, base=None):
     return {'bases': bases, 'cps': cps, 'rational': bool(rational)}
 
 
+def _loft_periodic_spec(rng, nsec, pdir, mix):
+    """Volume loft of SURFACE sections that are periodic in parametric direction `pdir` (1 = v, the
+    second direction; 0 = u as control) and whose periodic continuity DIFFERS between the sections, so
+    that make_splines_identical has to call lower_periodic(k, direction=pdir) on some of them.
+    mix: 'continuity' (C0/C1/C2 periodic rings), 'rational' (the C0 rings are rational, circle-like),
+    'open' (one section is not periodic at all)."""
+    secs = []
+    for i in range(nsec):
+        if mix == 'open' and i == nsec - 1:
+            bp = gen.open_basis(rng, rng.choice([2, 3]), n_interior=rng.randint(1, 2), max_mult=1)
+            rational = False
+        else:
+            k = [0, 1, 2, 1][i % 4] if mix != 'open' else [1, 0, 1][i % 3]
+            p = max(3, k + 2)
+            bp = gen.periodic_basis(rng, p, k, n_interior=rng.randint(1, 2), max_mult=1)
+            rational = (mix == 'rational' and k == 0)
+        bo = gen.open_basis(rng, 2, n_interior=rng.randint(0, 1), max_mult=1)
+        bases = [bo, bp] if pdir == 1 else [bp, bo]
+        shape = [gen.basis_info(b)['n'] for b in bases]
+        arr = np.array(gen.rand_cps(rng, shape, 3 + (1 if rational else 0), rational), dtype=float)
+        off = [_dy(rng, -0.5, 0.5), _dy(rng, -0.5, 0.5), 3.0 * i + _dy(rng, 0.0, 0.5)]
+        for c in range(3):
+            if rational:
+                arr[..., c] += off[c] * arr[..., -1]
+            else:
+                arr[..., c] += off[c]
+        secs.append({'bases': bases, 'cps': arr.tolist(), 'rational': bool(rational)})
+    return {'kind': 'loft', 'sections': secs, 'pardim': 2, 'compatible': False, 'dim': 3,
+            'perdir': pdir, 'mix': mix}
+
+
 def _loft_spec(rng, nsec, pardim, compatible):
     secs = []
     base = _section(rng, pardim, 'fresh')
@@ -474,6 +506,12 @@ def generate(rng, tier):
             specs.append(_loft_spec(rng, nsec, 2, nsec % 2 == 0))
             if not q or nsec in (2, 4):
                 specs.append(_loft_spec(rng, nsec, 2, nsec % 2 == 1))
+        # sections periodic in the SECOND direction with differing periodic continuity (lower_periodic(k, 1))
+        for nsec, pdir, mix in ((3, 1, 'continuity'), (4, 1, 'open'), (3, 1, 'rational'), (3, 0, 'continuity'),
+                                (2, 1, 'rational'), (2, 1, 'open'), (4, 1, 'continuity')):
+            if q and (nsec, pdir, mix) == (4, 1, 'continuity'):
+                continue
+            specs.append(_loft_periodic_spec(rng, nsec, pdir, mix))
         for _i in range(8):
             specs.append(_manip_spec(rng))
         for _i in range(6):
@@ -1255,6 +1293,15 @@ def tags(s, res):
         out.append('loft=' + ('curves' if s['pardim'] == 1 else 'surfaces'))
         if any(o['rational'] for o in s['sections']):
             out.append('loft-rational')
+        if s['pardim'] == 2:
+            for d, nm in ((0, 'u'), (1, 'v')):
+                ks = set(o['bases'][d]['periodic'] for o in s['sections'])
+                if any(kk >= 0 for kk in ks):
+                    out.append('loft:sections-periodic-' + nm)
+                    if len(ks) > 1:
+                        out.append('loft:mixed-periodicity')
+                        if -1 in ks:
+                            out.append('loft:periodic-vs-open')
     if k == 'manipulate':
         out.append('manip=' + ('vectorized' if s['vectorized'] else 'scalar'))
     if k == 'fit':
